@@ -27,6 +27,11 @@ pub fn format_parse_error(input: &str, err: nom::Err<NomError<&str>>) -> String 
             while !input.is_char_boundary(offset) {
                 offset -= 1;
             }
+            // The annotated span covers the whole offending character.
+            let span_end = input[offset..]
+                .chars()
+                .next()
+                .map_or(offset, |character| offset + character.len_utf8());
             
             // Calculate line and column numbers
             let mut line_no = 1;
@@ -105,7 +110,7 @@ pub fn format_parse_error(input: &str, err: nom::Err<NomError<&str>>) -> String 
                             .fold(false)
                             .annotation(
                                 AnnotationKind::Primary
-                                    .span(offset..offset.saturating_add(1).min(input.len()))
+                                    .span(offset..span_end)
                                     .label(&final_label)
                             )
                     )
